@@ -9,6 +9,10 @@ claim("C15",
       "CFG path counting of result deliveries per CheckFunc (exactly one on every return path); channel capacity vs abandonable receivers; counted-drain idiom check on the checkgroup consumer; classification of every blocking channel operation; lexicographic (guarded depth, AST descent) termination certificates for every recursive SCC of the engine's static call graph",
       "Decides delivery, channel-capacity, drain, cancellability-class and termination-certificate obligations for every CheckFunc, channel and recursive cycle of the check engine; does not decide the numeric bound on storage operations or wall-clock promptness. Right level: goroutine leaks, hangs and unbounded recursion here are path/shape facts of the code.")
 
-for p in ["C01","C02","C03","C04","C05","C06","C07","C08","C09","C11","C12","C13","C14","C16","C18","C19"]:
+claim("C03",
+      "error-discipline dataflow (every non-nil path of every storage/mapping error in check and expand reaches an escape, by CFG must-pass counting); abstract execution of every Result combinator over the six-point domain {Unknown,IsMember,NotMember}x{nil,err} with a contract table per role; producer/consumer audit of Membership vs Err",
+      "Decides that no storage error is dropped by the engines, that no producer or combinator can pair IsMember with an error, and that consumers of Membership are covered; does not decide equality with the fault-free answer. Right level: dropped errors and flipped error results are shape facts of each function.")
+
+for p in ["C01","C02","C04","C05","C06","C07","C08","C09","C11","C12","C13","C14","C16","C18","C19"]:
     na(p, NOTBUILT)
 na("C10", "semantic equivalence between the parser's output and TypeScript's grammar over all programs: precedence/associativity is not a code shape every correct parser shares; no sound structural necessary condition found (and the property is known to be violated: a||b&&c parses as (a||b)&&c), so a static green light would be misleading")
